@@ -84,6 +84,29 @@ class Boom:
         return ''
 
 
+class Reenter(Boom):
+    """Renders as ''; on its (at+1)-th call it renders the same compiled
+    template again, over another sequence (a page that shows a sub-listing
+    through the template it is itself rendered with)."""
+
+    def __init__(self, at, tmpl, other):
+        Boom.__init__(self, None)
+        self.k, self.tmpl, self.other = at, tmpl, other
+        self.busy = False
+
+    def __call__(self):
+        self.n += 1
+        if self.n == self.k + 1 and not self.busy:
+            self.busy = True
+            try:
+                self.tmpl(seq=list(self.other), x='INNERX', boom=Boom(None))
+            except Exception:
+                pass
+            finally:
+                self.busy = False
+        return ''
+
+
 VALUED = ['item', 'index', 'number', 'letter', 'Letter', 'roman', 'Roman',
           'length']
 BOOLS = ['even', 'odd', 'start', 'end']
@@ -161,6 +184,8 @@ def build_source(case):
     parts.append('⟫')
     if case.get('raise_at') is not None:
         parts.append(var(sx, 'boom'))
+    elif case.get('reenter') is not None:
+        parts.insert(0, var(sx, 'boom'))
     body = ''.join(parts)
     els = ''
     if opts.get('else'):
@@ -316,6 +341,10 @@ def check(case):
     ra = case.get('raise_at')
     boom = Boom(ra)
     tmpl = cls(src)
+    if ra is None and case.get('reenter') is not None and items:
+        other = list(items[::-1][:3]) if case['seqkind'] != 'lazy' else \
+            list(items[:2])
+        boom = Reenter(case['reenter'], tmpl, other)
     before = list(items)
     try:
         out = tmpl(seq=seq, x='OUTERX', boom=boom)
@@ -418,6 +447,7 @@ def strategy():
         xs=st.lists(st.integers(0, 2), min_size=0, max_size=12),
         ks=st.permutations(list(range(12))),
         raise_at=st.one_of(st.none(), st.none(), st.integers(0, 5)),
+        reenter=st.one_of(st.none(), st.none(), st.integers(0, 3)),
         ties=st.booleans(), attr=st.sampled_from(ATTR_NAMES),
         opts=opts)).map(fix)
 
